@@ -143,16 +143,32 @@ func (t *FloatType) Get(key string) (px.Value, bool) {
 	}
 }
 
+// bounds answers the range that the type denotes: a bound left at its default is no bound at all, and so includes the
+// infinity that lies beyond math.MaxFloat64
+func (t *FloatType) bounds() (min, max float64) {
+	min, max = t.min, t.max
+	if min <= -math.MaxFloat64 {
+		min = math.Inf(-1)
+	}
+	if max >= math.MaxFloat64 {
+		max = math.Inf(1)
+	}
+	return
+}
+
 func (t *FloatType) IsAssignable(o px.Type, g px.Guard) bool {
 	if ft, ok := o.(*FloatType); ok {
-		return t.min <= ft.min && t.max >= ft.max
+		min, max := t.bounds()
+		oMin, oMax := ft.bounds()
+		return min <= oMin && max >= oMax
 	}
 	return false
 }
 
 func (t *FloatType) IsInstance(o px.Value, g px.Guard) bool {
 	if n, ok := toFloat(o); ok {
-		return t.min <= n && n <= t.max
+		min, max := t.bounds()
+		return min <= n && n <= max
 	}
 	return false
 }
